@@ -7,6 +7,7 @@ import (
 	"net"
 	"net/http"
 	"strings"
+	"sync"
 
 	ws "github.com/gorilla/websocket"
 
@@ -107,10 +108,42 @@ func runC15(ctx *core.Ctx, out *core.Out) {
 	}
 }
 
-// (a) real Dialer <-> real Upgrader
+// (a) real Dialer <-> real Upgrader; every eighth case runs four pairs at the same
+// time (compressor and decompressor pools are shared by all connections of a process)
 func c15Pair(ctx *core.Ctx, out *core.Out) {
-	r := ctx.R
-	dc, uc := (ctx.Idx/3)%2 == 1, (ctx.Idx/6)%2 == 1
+	if (ctx.Idx/12)%8 != 5 {
+		c15PairOn(ctx, out, ctx.R, ctx.Idx)
+		return
+	}
+	const n = 4
+	subs := make([]*core.Out, n)
+	var wg sync.WaitGroup
+	for i := 0; i < n; i++ {
+		subs[i] = core.NewOut()
+		wg.Add(1)
+		go func(i int) {
+			defer wg.Done()
+			// both sides enable compression in the concurrent groups
+			c15PairOn(ctx, subs[i], gen.For(ctx.Seed, fmt.Sprintf("c15/conc%d", i), ctx.Idx), 9+12*i)
+		}(i)
+	}
+	wg.Wait()
+	out.Count("concurrent_pair_groups", 1)
+	for i, sub := range subs {
+		out.Evals += sub.Evals
+		out.Hashes = append(out.Hashes, sub.Hashes...)
+		for k, v := range sub.Counters {
+			out.Count(k, v)
+		}
+		for _, v := range sub.Viols {
+			out.Violate(v.Signature+"-with-concurrent-pairs", fmt.Sprintf("pair %d of %d running concurrently: %s", i, n, v.What), v.Detail)
+			return
+		}
+	}
+}
+
+func c15PairOn(ctx *core.Ctx, out *core.Out, r *gen.R, idx int) {
+	dc, uc := (idx/3)%2 == 1, (idx/6)%2 == 1
 	a, b := xport.NewPipe()
 	desc := map[string]interface{}{"family": "pair", "dialer_enable_compression": dc, "upgrader_enable_compression": uc}
 	fail := func(sig, what string) {
@@ -128,7 +161,7 @@ func c15Pair(ctx *core.Ctx, out *core.Out) {
 			ch <- srvRes{nil, err}
 			return
 		}
-		u := &ws.Upgrader{EnableCompression: uc, ReadBufferSize: []int{0, 512}[ctx.Idx%2], CheckOrigin: func(*http.Request) bool { return true }}
+		u := &ws.Upgrader{EnableCompression: uc, ReadBufferSize: []int{0, 512}[idx%2], CheckOrigin: func(*http.Request) bool { return true }}
 		c, err := u.Upgrade(newFakeRW(b, br, 4096), req, nil)
 		ch <- srvRes{c, err}
 	}()
@@ -141,7 +174,7 @@ func c15Pair(ctx *core.Ctx, out *core.Out) {
 		return dialOver(&dd, a)
 	}()
 	sr := <-ch
-	out.Eval(core.J(desc)+fmt.Sprint(ctx.Idx/12), dc || uc)
+	out.Eval(core.J(desc)+fmt.Sprint(idx/12), dc || uc)
 	if err != nil || sr.err != nil || cc == nil || sr.c == nil {
 		fail("pair-handshake-failed", fmt.Sprintf("Dialer/Upgrader handshake failed: client %v, server %v", err, sr.err))
 		return
@@ -237,7 +270,7 @@ func c15Pair(ctx *core.Ctx, out *core.Out) {
 		return
 	}
 	out.Count("rsv1_frames_seen", 0)
-	if ctx.Idx%600 == 0 {
+	if idx%600 == 0 {
 		out.Sample(desc)
 	}
 }
